@@ -79,6 +79,10 @@ func (b *ReaderX) ReadN(n int) ([]byte, error) {
 
 // ZReadN read n length buffer - no copy
 func (b *ReaderX) ZReadN(n int) ([]byte, error) {
+	if n == 0 {
+		// a zero-length read is valid (the empty string), as in BufferX.ZReadN
+		return []byte{}, nil
+	}
 	return b.ReadN(n)
 }
 
